@@ -10,7 +10,7 @@ for d in seeded/*/ ; do
   name=$(basename "$d")
   case "$name" in *${1:-}*) ;; *) continue ;; esac
   prop=$(jq -r '.property' "$d/meta.json" | cut -c1-3)
-  git -C /repo apply "$d/patch.diff" 2>/dev/null || { echo "SKIP  $name (patch does not apply)"; continue; }
+  git -C /repo apply "/verif/$d/patch.diff" 2>/dev/null || { echo "SKIP  $name (patch does not apply)"; continue; }
   out=$(./vf check "$prop" --tier quick 2>&1); rc=$?
   git -C /repo checkout -- .
   first=$(echo "$out" | grep -m1 "^VIOLATION" | cut -c1-160)
@@ -18,7 +18,7 @@ for d in seeded/*/ ; do
 done
 for p in mutants/*.patch; do
   name=$(basename "$p")
-  git -C /repo apply "$p" 2>/dev/null || { echo "SKIP  $name"; continue; }
+  git -C /repo apply "/verif/$p" 2>/dev/null || { echo "SKIP  $name"; continue; }
   out=$(./vf check C08 --tier quick 2>&1); rc=$?
   git -C /repo checkout -- .
   if [ $rc -eq 1 ]; then ok=$((ok+1)); echo "CAUGHT $name by C08 :: $(echo "$out" | grep -m1 "^VIOLATION" | cut -c1-160)"; else miss=$((miss+1)); echo "MISSED $name (exit $rc)"; fi
